@@ -389,6 +389,10 @@ class SnapMemberOracle(_c10.MemberOracle):
         for v in self.violations[before:]:
             if v.inv != 'member_set_mismatch' or (v.detail or {}).get('reapplied_at_commit'):
                 continue
+            if (v.detail or {}).get('snapshot') is not None:
+                # the (in-memory) snapshot itself stores another member set than the common sequence defines at its position
+                self.flag('snapshot_member_set_mismatch', v.msg, v.detail)
+                continue
             h = w.hosts[touched]
             ld = self.loaded.get(touched)
             n = h.node
